@@ -556,7 +556,10 @@ pub fn probes_for(ks: &[Vec<u8>], rng: &mut Rng, exhaustive_ext: bool) -> Vec<Ve
             ps.push(e);
         }
         for i in 0..k.len() {
-            for d in [1u8, 255, rng.next() as u8] {
+            // every other byte value at every position for small sets (a reader shortcut may confuse one
+            // specific byte, e.g. the byte that happens to precede a node's state byte), a few otherwise
+            let subs: Vec<u8> = if exhaustive_ext && k.len() <= 6 { (1..=255u8).collect() } else { vec![1u8, 255, rng.next() as u8] };
+            for d in subs {
                 let mut e = k.clone();
                 e[i] = e[i].wrapping_add(d);
                 ps.push(e);
